@@ -143,10 +143,16 @@ def tag_check_in_loader(db, f, rep):
                 ini = d.get("init")
                 if ini is not None and strip(ini) is first_load:
                     var = d["d"]
+    def disjuncts(c):
+        c = strip(c)
+        if c["k"] == "BinaryOperator" and c["op"] == "||":
+            return disjuncts(c["lhs"]) + disjuncts(c["rhs"])
+        return [c]
     for n in f.nodes():
         if n["k"] == "IfStmt":
-            c = strip(n["cond"])
-            if c["k"] == "BinaryOperator" and c["op"] == "!=":
+            # the rejecting test may share its `if` with other reasons to reject:  if (tag != T || option invalid) return NULL;
+            for c in disjuncts(n["cond"]):
+              if c["k"] == "BinaryOperator" and c["op"] == "!=":
                 l, r = strip(c["lhs"]), strip(c["rhs"])
                 for a, b in ((l, r), (r, l)):
                     if ((var is not None and a["k"] == "DeclRefExpr" and a.get("d") == var) or a is first_load) and const_value(b) is not None:
@@ -235,8 +241,8 @@ def r_tags(db, rep):
                 continue
             rep.ob()
             pos = cfg.position(n)
-            doms = cfg.dominating_conditions(pos)
-            if not any(c is tc["cond"] and pol is False for c, pol in doms):
+            doms = cfg.guards(n)
+            if not any(c is not None and strip(c) is tc["cond"] and pol is False for c, pol in doms):
                 rep.viol(k + "::load#early:" + (n.get("fn") or "new"), ld.nloc(n),
                          "%s: %s happens on a path where the tag has not been checked against %s" % (
                              ld.qn, "allocation" if is_alloc else "stream read " + n.get("fn", ""), tc["name"]), ld.qn)
